@@ -62,9 +62,8 @@ def first_errors(out, n=6):
 def build_entry(sch, edir, configs, header_configs, sbeppc):
     """sbeppc + drivers for one schema. Returns a status dict (also written to edir/entry.json)."""
     os.makedirs(edir, exist_ok=True)
+    schemagen.write_schema(sch, edir)
     xml = schemagen.to_xml(sch)
-    with open(os.path.join(edir, "schema.xml"), "w") as f:
-        f.write(xml)
     with open(os.path.join(edir, "model.json"), "w") as f:
         json.dump(sch, f)
     st = {"ok": False, "stage": "sbeppc", "errors": [], "configs": [], "headers_checked": 0, "header_configs": []}
